@@ -602,6 +602,9 @@ func runFrame(fr *frame) {
 		if d := len(fr.i.stack); d >= fr.i.panicDepth {
 			fr.i.panicDepth = d
 			fr.i.panicStack = fr.i.stackString()
+			if fr.i.verbose {
+				fmt.Fprintf(os.Stderr, "PANIC %v%s\n", fr.panic, fr.i.panicStack)
+			}
 		}
 		if fr.i.mode&EnableTracing != 0 {
 			fmt.Fprintf(os.Stderr, "Panicking: %T %v.\n", fr.panic, fr.panic)
